@@ -131,6 +131,8 @@ CURATED = [
     ('call-scope', 'fn f(a) {\n    l := a\n    a = a + 1\n    return a + l\n}\na := @h1@\nprint(f(a))\nprint(a)\nif @b1@ {\n    print(l)\n}\n'),
     ('redeclare', 'x := @h1@\nif @b1@ {\n    x := @h2@\n    print(x)\n}\nif @b2@ {\n    fn x() {\n        return 1\n    }\n    print(2)\n}\nprint(x)\nx := @h3@\nprint(x)\n'),
     ('redeclare-kinds', 's := @h0@\nfn f() {\n    return 1\n}\n[a, b] := [1, 2]\nif s == 0 {\n    print(1)\n}\n' + ''.join('%s\n' % l for l in []) ),
+    ('capture-then-shadow', 'x := @h1@\nfn mk() {\n    print(x)\n    f := fn () {\n        return x\n    }\n    g := fn (v) {\n        x = v\n    }\n    print(f())\n    x := @h2@\n    print(f())\n    g(@h3@)\n    print(x)\n    return f\n}\nh := mk()\nprint(h())\nprint(x)\n{\n    print(x)\n    k := fn () {\n        return x\n    }\n    print(k())\n    x := @h4@\n    print(k())\n}\nprint(x)\n'),
+    ('pattern-names-see-outer', 'field := "name"\nrows := [{"name": @h1@, "born": 1815}, {"name": @h2@, "born": 1912}]\nfn who({field: w}) {\n    return w\n}\nprint(who(rows[0]))\nfor [i, {field: w}] in rows {\n    print(w)\n}\npick := fn (k, {k: v}) {\n    return v\n}\nprint(pick("born", rows[1]))\n{field: a} := rows[1]\nprint(a)\nfn outer() {\n    col := "born"\n    return fn ({col: c, field: n}) {\n        return [c, n]\n    }\n}\nprint(outer()(rows[0]))\nb := 0\n{field: b} = rows[0]\nprint(b)\n'),
     ('paren-names', 'if @b1@ {\n    print(  (w))\n}\nif @b2@ {\n    (  w) = 1\n}\nif @b3@ {\n    ( w) += 1\n}\nif @b4@ {\n    z := {(  w)}\n}\n( w) := @h1@\nprint(w)\nif @b5@ {\n    (   w) := 2\n}\nprint((w) + 1)\n'),
     ('use-before-decl', 'if @b1@ {\n    print(w)\n}\nif @b2@ {\n    w = 1\n}\nif @b3@ {\n    w += 1\n}\nw := @h1@\nprint(w)\n'),
     ('underscore', '_ := @h1@\n_ := @h2@\n[_, _, k] := [1, 2, @h3@]\nprint(k)\nfn f(_, _) {\n    return 1\n}\nprint(f(1, 2))\nfor [_, _] in [1] {\n    print(3)\n}\nif @b1@ {\n    print(_)\n}\n_ = 5\nprint(4)\n'),
